@@ -106,3 +106,36 @@ func init() {
 		}
 	}
 }
+
+func init() {
+	relModels := []string{modelSig, modelCodec, modelCtx}
+	hs := []string{"c01_chain.go", "c16_keyid.go", "authz_gen.go", "c04_authz.go", "authz_rel.go", "authz_c12_c18.go"}
+	checks = append(checks, &CheckSpec{
+		Prop:    "C12",
+		Harness: hs,
+		Entries: []EntrySpec{
+			{Pkg: "biscuit", Func: "VerifC12Presentation",
+				Quick:    p("authRule", 1, "authCheck", 0, "azRule", 1, "azRule2", 0, "qMode", 1, "policies", 1, "polMode", 1),
+				Thorough: p("authRule", 2, "authCheck", 1, "azRule", 1, "azRule2", 1, "qMode", 2, "policies", 2, "polMode", 1),
+				Covers:   []string{"compared"}},
+		},
+		Assumptions: authzAssume, Models: relModels,
+		Explanation: "the same symbolic content is presented twice, the second time transformed (facts / rules / checks / queries permuted, variable renamed, a fact duplicated, or Authorize called twice on one authorizer); outcome class and derived facts compared by the solver",
+		LevelText:   "Bounded symbolic relational model checking: for each of eight presentation transformations and all symbolic names/constants of the scenario family, the outcome class and the queried fact sets are equal.",
+		LevelNote:   "Go map iteration order is not involved in the evaluated code paths (slices only); permutations are transpositions of two elements.", DesignRef: "DESIGN.md §6 authz family",
+	})
+	checks = append(checks, &CheckSpec{
+		Prop:    "C18",
+		Harness: hs,
+		Entries: []EntrySpec{
+			{Pkg: "biscuit", Func: "VerifC18Snapshot",
+				Quick:    sc("authFacts", 1, "azFacts", 1, "azRule", 1, "azCheck", 1, "policies", 2),
+				Thorough: sc("authFacts", 1, "authRule", 1, "azFacts", 2, "azRule", 2, "azCheck", 2, "policies", 2, "polMode", 2),
+				Covers:   []string{"compared"}},
+		},
+		Assumptions: authzAssume, Models: relModels,
+		Explanation: "SerializePolicies -> ideal codec -> LoadPolicies into a fresh authorizer for the same or another token, then Authorize and Query on both; refusal after evaluation",
+		LevelText:   "Bounded symbolic relational model checking: the restored authorizer gives the same outcome class and query results as an authorizer loaded directly with the same content, for the same token and for a different token; SerializePolicies fails after Authorize and after Query.",
+		LevelNote:   "Message-level codec; malformed snapshot bytes are part of C10's hostile-message harness.", DesignRef: "DESIGN.md §6 authz family",
+	})
+}
